@@ -6,6 +6,7 @@ import (
 	"regexp"
 	"sort"
 	"strings"
+	"sync/atomic"
 
 	"github.com/prometheus/prometheus/model/labels"
 
@@ -38,6 +39,17 @@ func extSetsOf(blocks []*blockSpec) []map[string]string {
 // checkExternalLabels is C08's monitor for one successful Series answer of a store whose blocks
 // carry the given external label sets (one for the TSDB store, one per block set for the gateway).
 func checkExternalLabels(s *simkit.Sim, who string, extSets []map[string]string, q query, resp response, detail string) {
+	if inv, sig, msg := judgeExternalLabels(who, extSets, q, resp); inv != "" {
+		s.Violate(inv, sig, "%s\nquery %s\n%s", msg, q, detail)
+		return
+	}
+	if len(resp.Series) > 0 {
+		s.Probe("c08.series_checked")
+	}
+}
+
+// judgeExternalLabels returns ("", "", "") when the answer presents the external labels as C08 demands.
+func judgeExternalLabels(who string, extSets []map[string]string, q query, resp response) (string, string, string) {
 	// which external label sets are not contradicted by the selectors?
 	var live []map[string]string
 	for _, ext := range extSets {
@@ -52,15 +64,13 @@ func checkExternalLabels(s *simkit.Sim, who string, extSets []map[string]string,
 		}
 	}
 	if len(live) == 0 && len(resp.Series) > 0 {
-		s.Violate("contradicting-selector-returns-nothing", who+":series-returned", "%s: %d series returned (first %s) although the selectors contradict the external labels %v\nquery %s\n%s",
-			who, len(resp.Series), resp.Series[0].Labels, extSets, q, detail)
-		return
+		return "contradicting-selector-returns-nothing", who + ":series-returned", fmt.Sprintf("%s: %d series returned (first %s) although the selectors contradict the external labels %v",
+			who, len(resp.Series), resp.Series[0].Labels, extSets)
 	}
 	for _, gs := range resp.Series {
 		for _, w := range q.Without {
 			if gs.Labels.Has(w) {
-				s.Violate("replica-labels-dropped", who+":replica-label-present", "%s: series %s still carries label %q listed in WithoutReplicaLabels %q\nquery %s\n%s", who, gs.Labels, w, q.Without, q, detail)
-				return
+				return "replica-labels-dropped", who + ":replica-label-present", fmt.Sprintf("%s: series %s still carries label %q listed in WithoutReplicaLabels %q", who, gs.Labels, w, q.Without)
 			}
 		}
 		carried := false
@@ -80,14 +90,11 @@ func checkExternalLabels(s *simkit.Sim, who string, extSets []map[string]string,
 		}
 		if !carried {
 			sort.Strings(why)
-			s.Violate("series-carry-external-labels", who+":external-label-missing-or-overridden", "%s: series %s does not carry the external labels of any selected block set %v (%s)\nquery %s\n%s",
-				who, gs.Labels, live, strings.Join(why, "; "), q, detail)
-			return
+			return "series-carry-external-labels", who + ":external-label-missing-or-overridden", fmt.Sprintf("%s: series %s does not carry the external labels of any selected block set %v (%s)",
+				who, gs.Labels, live, strings.Join(why, "; "))
 		}
 	}
-	if len(resp.Series) > 0 {
-		s.Probe("c08.series_checked")
-	}
+	return "", "", ""
 }
 
 // runC08: external labels are presented consistently by the gateway and by the local TSDB store
@@ -118,6 +125,9 @@ func runC08(x *simkit.Exec) {
 	plans := drawPlans(x, nclients, npool, 3)
 	faults := x.Bool("faults", 1, 2)
 	frame := []int{1, 40, 90, 200, 1 << 20}[x.Draw("tsdb.frame", 5)]
+	promFrame := []int{1, 64, 1 << 20}[x.Draw("prom.frame", 3)]
+	promSampled := x.Bool("prom.sampledOnly", 1, 3)
+	promFlipInFlight := x.Bool("prom.flipInFlight", 1, 2)
 	f := prepare(x, ds)
 	if f == nil {
 		return
@@ -207,7 +217,88 @@ func runC08(x *simkit.Exec) {
 				}
 			}
 		})
-		return closeTSDB
+		// the sidecar's store: a PrometheusStore over Prometheus's own remote-read handler serving the same
+		// block. Its external labels come from a function (the sidecar re-reads Prometheus's configuration):
+		// constant, reconfigured between rounds, or changing while a request is in flight.
+		var promExt atomic.Pointer[map[string]string]
+		first := ds.Blocks[0].Ext
+		promExt.Store(&first)
+		var flipTo *map[string]string // when set: the next call of the labels function installs it
+		promStore, closeProm := openPromStore(x, f, func() labels.Labels {
+			cur := *promExt.Load()
+			if flipTo != nil {
+				promExt.Store(flipTo)
+				flipTo = nil
+			}
+			return labels.FromMap(cur)
+		}, promFrame, promSampled)
+		closeAll := func() { closeTSDB(); closeProm() }
+		if promStore == nil {
+			return closeAll
+		}
+		s.Go("prom-client", func() {
+			ctx := context.Background()
+			for round := 0; round < 1+len(newExts); round++ {
+				before := *promExt.Load()
+				after := before
+				inFlight := false
+				if round > 0 {
+					after = newExts[round-1]
+					if promFlipInFlight {
+						// the change lands between the request's first look at the labels and any later one
+						inFlight = true
+					} else {
+						promExt.Store(&after)
+						before = after
+					}
+					s.Probe("c08.prometheus_external_labels_reconfigured")
+				}
+				for qi, q := range pool {
+					if s.Park(ctx, s.OpID("prom-client", "begin", fmt.Sprint(round), fmt.Sprint(qi))) != nil {
+						return
+					}
+					if inFlight && qi == 0 {
+						nx := after
+						flipTo = &nx
+					}
+					q.SkipChunks = false // SkipChunks goes to Prometheus's series HTTP API, which this world does not serve
+					resp, _ := callSeries(ctx, promStore, q)
+					flipped := inFlight && qi == 0 && flipTo == nil // the request looked at the labels at least once
+					if inFlight && qi == 0 && flipTo != nil {
+						// the request never asked for the labels: the change simply happens after it
+						flipTo = nil
+						promExt.Store(&after)
+					}
+					if resp.Err != nil {
+						s.Probe("c08.prom_series_rejected:" + errClass(resp.Err) + ":" + firstWords(resp.Err.Error(), 30))
+						if inFlight && qi == 0 {
+							before = after
+						}
+						continue
+					}
+					det := fmt.Sprintf("sidecar external labels %v (round %d, sampled remote read only: %v, frame bytes %d)\n%s", before, round, promSampled, promFrame, detail)
+					if inFlight && qi == 0 && !flipped {
+						checkExternalLabels(s, "prometheus-store", []map[string]string{before}, q, resp, det)
+						before = after
+						continue
+					}
+					if inFlight && qi == 0 {
+						// either configuration is a correct answer, as long as it is one of them throughout
+						invA, _, _ := judgeExternalLabels("prometheus-store", []map[string]string{before}, q, resp)
+						invB, sigB, msgB := judgeExternalLabels("prometheus-store", []map[string]string{after}, q, resp)
+						if invA != "" && invB != "" {
+							s.Violate(invB, sigB+":labels-changed-in-flight", "%s\n(the external labels changed from %v to %v while the request was in flight; the answer fits neither)\nquery %s\n%s", msgB, before, after, q, det)
+							return
+						}
+						s.Probe("c08.prom_labels_changed_in_flight")
+						before = after
+						continue
+					}
+					checkExternalLabels(s, "prometheus-store", []map[string]string{before}, q, resp, det)
+				}
+			}
+		})
+		return closeAll
 	}, func(s *simkit.Sim, g *gateway, ctx context.Context, actor string, c int, begin func(string) bool) {
 		for _, qi := range plans[c] {
 			if !begin(fmt.Sprintf("q%d", qi)) {
@@ -243,4 +334,12 @@ func drawExtMatcher(x *simkit.Exec, name, value string) *labels.Matcher {
 	default:
 		return labels.MustNewMatcher(labels.MatchEqual, name, "")
 	}
+}
+
+func firstWords(s string, n int) string {
+	f := strings.Fields(s)
+	if len(f) > n {
+		f = f[:n]
+	}
+	return strings.Join(f, " ")
 }
